@@ -281,3 +281,48 @@ M('C16', 'benign: reorder independent statements in shared branch', 'evaluable.p
   "            lock = self.get_lock_for_evaluable(array)\n            self._shared_arrays[out] = lock\n            self._blocks[0,].append(_pyast.Assign(lock, _pyast.Variable('multiprocessing').get_attr('Lock').call()))\n            py_alloc = _pyast.Variable('parallel').get_attr('shempty')",
   "            lock = self.get_lock_for_evaluable(array)\n            py_alloc = _pyast.Variable('parallel').get_attr('shempty')\n            self._blocks[0,].append(_pyast.Assign(lock, _pyast.Variable('multiprocessing').get_attr('Lock').call()))\n            self._shared_arrays[out] = lock", expect='silent')
 M('C16', 'benign: exhaustion test mirrored', 'parallel.py', "            if iiter >= self._stop:", "            if self._stop <= iiter:", expect='silent')
+
+# ---------------------------------------------------------------- C19
+M('C19', 'raise ValueError in _Parser', 'expression_v2.py', "            raise ExpressionSyntaxError('Repeated fractions are not allowed. Use parentheses if necessary.', s.trim())", "            raise ValueError('Repeated fractions are not allowed. Use parentheses if necessary.')", rule='R19.1')
+M('C19', 'unguarded int() of user text', 'expression_v2.py',
+  "    def parse_signed_int(self, s: _Substring) -> Tuple[T, _Shape, str, FrozenSet[str]]:\n        try:\n            value = int(str(s.trim()))\n        except ValueError:\n            raise ExpressionSyntaxError('Expected an int.', s.trim() or s) from None\n",
+  "    def parse_signed_int(self, s: _Substring) -> Tuple[T, _Shape, str, FrozenSet[str]]:\n        value = int(str(s.trim()))\n", rule='R19.1')
+M('C19', 'delete _verify_indices_summed in parse_power', 'expression_v2.py',
+  "        summed_indices = self._merge_summed_indices_same_term(s.trim(), base_summed_indices, exponent_summed_indices)\n        self._verify_indices_summed(s.trim(), indices, summed_indices)\n        return self.array.power(base, exponent), shape, indices, summed_indices",
+  "        summed_indices = self._merge_summed_indices_same_term(s.trim(), base_summed_indices, exponent_summed_indices)\n        return self.array.power(base, exponent), shape, indices, summed_indices", rule='R19.2')
+M('C19', 'denominator dimension test dropped', 'expression_v2.py', "        if denominator_indices:\n            raise ExpressionSyntaxError('The denominator must have dimension zero.', s_parts[1].trim())\n", "", rule='R19.2')
+M('C19', 'fraction merges with union instead of checked merge', 'expression_v2.py',
+  "        summed_indices = self._merge_summed_indices_same_term(s.trim(), numerator_summed_indices, denominator_summed_indices)\n        self._verify_indices_summed(s.trim(), indices, summed_indices)\n        return self.array.divide(",
+  "        summed_indices = numerator_summed_indices | denominator_summed_indices\n        self._verify_indices_summed(s.trim(), indices, summed_indices)\n        return self.array.divide(", rule='R19.2')
+M('C19', 'one direction of the index-set test dropped', 'expression_v2.py',
+  "                for index in sorted(set(term_indices) - set(indices)):\n                    raise ExpressionSyntaxError('Index {} of the {} term [~] is missing in the first term [^].'.format(index, _nth(iterm)), caret=s_first.trim(), tilde=s_term.trim())\n", "", rule='R19.2')
+M('C19', 'length test between terms dropped', 'expression_v2.py',
+  "            for n, m, index in zip(shape, term_shape, indices):\n                if n != m:\n                    raise ExpressionSyntaxError('Index {} has length {} in the first term [^] but length {} in the {} term [~].'.format(index, n, m, _nth(iterm)), caret=s_first.trim(), tilde=s_term.trim())\n", "", rule='R19.2')
+M('C19', 'trace no longer tests more-than-twice', 'expression_v2.py',
+  "            if index in summed_indices:\n                raise ExpressionSyntaxError('Index {} occurs more than twice.'.format(index), s)\n            elif i < j:", "            if i < j:", rule='R19.2')
+M('C19', 'trace length test dropped', 'expression_v2.py',
+  "                if shape[i] != shape[j]:\n                    raise ExpressionSyntaxError('Index {} is assigned to axes with different lengths: {} and {}.'.format(index, shape[i], shape[j]), s)\n", "", rule='R19.2')
+M('C19', 'numeral range test off by one', 'expression_v2.py', "                    if index >= shape[axis]:", "                    if index > shape[axis]:", rule='R19.2')
+M('C19', 'symbols after scope accepted', 'expression_v2.py', "        if s_tail:\n            raise ExpressionSyntaxError('Unexpected symbols after scope.', s_tail)\n", "", rule='R19.2')
+M('C19', 'summed indices of later terms dropped', 'expression_v2.py', "            summed_indices |= term_summed_indices\n", "", rule='R19.2')
+M('C19', 'swap mean and jump brackets', 'expression_v2.py', "{'(': self.array.scope, '{': self.array.mean, '[': self.array.jump}", "{'(': self.array.scope, '{': self.array.jump, '[': self.array.mean}", rule='R19.3')
+M('C19', 'ops.mean calls jump', 'expression_v2.py', "    def mean(self, array: function.Array) -> function.Array:\n        return function.mean(array)", "    def mean(self, array: function.Array) -> function.Array:\n        return function.jump(array)", rule='R19.3')
+M('C19', 'ln bound to log10', 'expression_v2.py', "        self.ln = numpy.log\n", "        self.ln = numpy.log10\n", rule='R19.3')
+M('C19', 'arcsin bound to arccos', 'expression_v2.py', "        self.arcsin = numpy.arcsin", "        self.arcsin = numpy.arccos", rule='R19.3')
+M('C19', 'align transposes in the wrong direction', 'expression_v2.py', "        return self.transpose(array, tuple(map(in_indices.index, out_indices)))", "        return self.transpose(array, tuple(map(out_indices.index, in_indices)))", rule='R19.3')
+M('C19', 'divide is floor division', 'expression_v2.py', "        return numpy.true_divide(numerator, denominator)", "        return numpy.floor_divide(numerator, denominator)", rule='R19.3')
+M('C19', 'v1: transpose outside the try in parse()', 'expression_v1.py',
+  "        try:\n            ast = value.transpose(indices).ast\n        except _IntermediateError as e:\n            raise ExpressionSyntaxError(e.msg + '\\n' + expression + '\\n' + '^'*len(expression)) from e",
+  "        ast = value.transpose(indices).ast", rule='R19.4')
+M('C19', 'v1: tokenize loses @highlight', 'expression_v1.py', "    @highlight\n    def tokenize(self):", "    def tokenize(self):", rule='R19.4')
+M('C19', 'v1: parse_subexpression loses @highlight', 'expression_v1.py', "    @highlight\n    def parse_subexpression(self, omitted_indices):", "    def parse_subexpression(self, omitted_indices):", rule='R19.4')
+M('C19', 'v1: trace branch removed from _eval_ast', 'expression_v1.py', "    elif op == 'trace':\n        array, n1, n2 = args\n        return numpy.trace(array, axis1=n1, axis2=n2)\n", "", rule='R19.5')
+M('C19', 'v1: jump evaluates mean', 'expression_v1.py', "    elif op == 'jump':\n        array, = args\n        return function.jump(array)", "    elif op == 'jump':\n        array, = args\n        return function.mean(array)", rule='R19.5')
+M('C19', 'v1: surfgrad evaluates the full gradient', 'expression_v1.py', "        return function.grad(array, geom, len(geom)-1)", "        return function.grad(array, geom)", rule='R19.5')
+M('C19', 'v1: sum opcode written with extra operand', 'expression_v1.py', "            ast = 'sum', ast, _(i)", "            ast = 'sum', ast, _(i), _(True)", rule='R19.5')
+M('C19', 'v1: new opcode without reader', 'expression_v1.py', "        return self.replace(ast=('neg', self.ast))", "        return self.replace(ast=('negative', self.ast))", rule='R19.5')
+M('C19', 'benign: rename locals in parse_fraction', 'expression_v2.py', "        if denominator_indices:\n            raise ExpressionSyntaxError('The denominator must have dimension zero.', s_parts[1].trim())", "        if len(denominator_indices) > 0 or denominator_indices:\n            raise ExpressionSyntaxError('The denominator must have dimension zero.', s_parts[1].trim())", expect='silent')
+M('C19', 'benign: reorder elif branches of _eval_ast', 'expression_v1.py',
+  "    elif op == 'jump':\n        array, = args\n        return function.jump(array)\n    elif op == 'mean':\n        array, = args\n        return function.mean(array)",
+  "    elif op == 'mean':\n        array, = args\n        return function.mean(array)\n    elif op == 'jump':\n        array, = args\n        return function.jump(array)", expect='silent')
+M('C19', 'benign: inner method loses @highlight (still converted by the caller)', 'expression_v1.py', "    @highlight\n    def parse_term(self, omitted_indices):", "    def parse_term(self, omitted_indices):", expect='silent')
